@@ -51,6 +51,31 @@ Theorem steady_state_L_R (w L : R) (V I : @cx RF) (t : R) :
             (time_of (K:=RF) V (cos (w * t)) (sin (w * t))).
 Proof. intros ->. unfold time_of. cbn. auto_derive; [exact Logic.I | ring]. Qed.
 
+(* the sqrt / atan2 contract over the reals (right half plane, where atan2(y, x) = atan(y / x);
+   the left half plane follows by the symmetry (x, y) -> (-x, -y), theta -> theta + pi) *)
+Theorem polar_R_right (x y : R) : 0 < x ->
+  sqrt (x * x + y * y) * cos (atan (y / x)) = x /\ sqrt (x * x + y * y) * sin (atan (y / x)) = y.
+Proof.
+  intros Hx. rewrite cos_atan, sin_atan.
+  assert (Hs : 0 < 1 + (y / x)²) by (unfold Rsqr; nra).
+  assert (E : sqrt (x * x + y * y) = x * sqrt (1 + (y / x)²)).
+  { replace (x * x + y * y) with ((x * x) * (1 + (y / x)²)) by (unfold Rsqr; field; lra).
+    rewrite sqrt_mult by nra. rewrite sqrt_square by lra. reflexivity. }
+  assert (Hq : sqrt (1 + (y / x)²) <> 0) by (apply Rgt_not_eq, sqrt_lt_R0; exact Hs).
+  rewrite E. split; field; repeat split; try lra; exact Hq.
+Qed.
+Theorem polar_R_left (x y : R) : x < 0 ->
+  sqrt (x * x + y * y) * cos (atan (y / x) + PI) = x /\ sqrt (x * x + y * y) * sin (atan (y / x) + PI) = y.
+Proof.
+  intros Hx. rewrite neg_cos, neg_sin.
+  destruct (polar_R_right (- x) (- y)) as [A B]; [lra|].
+  replace (- y / - x) with (y / x) in A, B by (field; lra).
+  replace (- x * - x + - y * - y) with (x * x + y * y) in A, B by ring.
+  split; lra.
+Qed.
+
 Print Assumptions phasor_time_roundtrip_cos_R.
+Print Assumptions polar_R_right.
+Print Assumptions polar_R_left.
 Print Assumptions dtime_is_derivative.
 Print Assumptions steady_state_C_R.
